@@ -364,6 +364,10 @@ pub fn run(run: &'static Run) {
     run.budget_secs(std::env::var("VERIF_C16_BUDGET").ok().and_then(|s| s.parse().ok()).unwrap_or(run.pick(55.0, 540.0)));
     // E3 part first (seconds): two concurrent transactions under the controlled scheduler
     crate::c16c::concurrent(run);
+    // the BFS gets a time box of its own (the concurrent part above has used an unknown share of the first one)
+    if std::env::var("VERIF_C16_BUDGET").is_err() {
+        run.budget_secs(run.pick(25.0, 400.0));
+    }
 
     let seen: Mutex<HashSet<u64>> = Mutex::new(HashSet::new());
     let mut frontier: Vec<Node> = Vec::new();
